@@ -1,5 +1,38 @@
-"""C07 — bounded stand-in for now (runtime contracts on the real code against an independent oracle); see DESIGN.md."""
-BOUNDED_ONLY = True
+"""C07 — CUR and PCov-CUR select by leverage score on the orthogonalised residual.
+
+Proved per function (contracts/orth.py, contracts/cur.py):
+  X_orthogonalizer / Y_feature_orthogonalizer / Y_sample_orthogonalizer  = the documented projections (+ copy-flag frames, orthogonality, projector view)
+  _compute_pi (CUR, PCov-CUR, both directions, k in {1,2,3})             = sum of squared entries over the k leading singular / eigen vectors
+  _get_best_new_selection                                                = argmax of the stored score; maximal among the unselected under the search invariant
+  _update_post_selection / _orthogonalize (recompute_every in {0,1,2,3}) = which residual / unexplained y is stored, when scores are refreshed, zeroing of the pick
+  search invariant kept by every step, established by _init_greedy_search, re-established by _continue_greedy_search
+Bounded supplement (rt/c07.py, never counted as proved): whole fits against a dense SVD/eigh oracle, sample-vs-feature duality, mixing=1 equals CUR."""
+from contracts import cur as K, orth as O
+C = K.Cfg
+
+def extend_ext(ext):
+    O.extend_ext(ext); K.extend_ext(ext, base=False)
+
+UNITS = list(O.UNITS)
+for fam in ('CUR', 'PCovCUR'):
+    for d in ('sample', 'feature'):
+        for k in (1, 2, 3):
+            UNITS.append((lambda c: (lambda: K.u_compute_pi(c)))(C(fam, d, k=k)))
+        for re in (0, 1, 2, 3):
+            UNITS.append((lambda c: (lambda: K.u_step(c)))(C(fam, d, recompute=re)))
+            UNITS.append((lambda c: (lambda: K.u_invariant(c)))(C(fam, d, recompute=re)))
+        UNITS.append((lambda c: (lambda: K.u_pick(c)))(C(fam, d)))
+        UNITS.append((lambda c: (lambda: K.u_init(c)))(C(fam, d)))
+        for re in (0, 1):
+            UNITS.append((lambda c: (lambda: K.u_continue(c)))(C(fam, d, recompute=re)))
 RT = True
-UNITS = []
-TRUSTED = ["independent numpy oracle (dense SVD/eigh on an independently computed projection residual; brute-force lower envelope; mixture recomputed from the fitted state)"]
+TRUSTED = ["matrix layer: 2-D arrays as terms of an uninterpreted sort with the ring laws of matrix algebra, column-of operator, zero-matrix laws, 1x1 matrices are their trace times Id(1)",
+           "Moore-Penrose facts used for the Y orthogonalisers: A G^+ G = A, G G^+ A^T = A^T for G = A^T A; A^T A A^+ = A^T; np.linalg.lstsq(A, B)[0] = A^+ B",
+           "external contracts (assumed): scipy.sparse.linalg.svds returns the k leading singular vectors of the matrix handed in (only the requested side); scipy.sparse.linalg.eigsh the k largest eigenpairs; "
+           "scipy.linalg.eigh all eigenpairs, eigenvalues ascending; np.argsort a sorting permutation",
+           "ghost flags of the search invariant: the picked residual slice is not numerically zero (C07 quantifies over X whose rank exceeds the number of selections) and the external routines give "
+           "component 0 to candidates whose residual slice is zero (true while the residual rank is at least k)",
+           "pcovr_kernel / pcovr_covariance: symmetric result of the documented routine (their formulas are the subject of C03/C04)",
+           "GreedySelector._continue_greedy_search only resizes the selection buffers (proved under C08)",
+           "the X_orthogonalizer unit covers the single-column call forms used by the selectors (c=int, x2=None); the x2= form is not used by any selector and is not covered",
+           "reals for floats: 'up to rounding' in the statement is not modelled; the tolerance comparisons are taken exactly"]
